@@ -74,6 +74,11 @@ def reader_failures(impl, cls, frames, chunks):
     return None
 
 
+EXTRA_FRAMES = {'cryptoparser.ssh.subprotocol.SshProtocolMessage': [
+    b'SSH-2.0-dropbear_\r\n', b'SSH-2.0-OpenSSH_\r\n', b'SSH-1.99-IPSSH-\r\n', b'SSH-2.0-OpenSSH__8.1\r\n', b'SSH-2.0-OpenSSH_for_Windows_8.1\r\n',
+    b'SSH-2.0-dropbear_2019.78_custom a comment\r\n']}
+
+
 def unit_frames(rng):
     """valid frames of every framing-unit class reached by the repository tests: {class: [bytes]}"""
     res = {}
@@ -89,6 +94,9 @@ def unit_frames(rng):
                         good.append(v)
                 except Exception:  # pylint: disable=broad-except
                     pass
+            # records the specification calls valid whatever the tree under test says: identification strings whose software
+            # version is a vendor name and its separator with nothing after it, or with the separator twice
+            good += EXTRA_FRAMES.get(name, [])
             if good:
                 res[cls] = good
     return res
